@@ -377,7 +377,19 @@ impl fmt::Display for IterableKind {
                     .join(", ")
             ),
             IterableKind::Integers(v) => format!("{:?}", v),
-            IterableKind::Anys(v) => format!("{:?}", v),
+            //the Debug form of the entries ([Integer(1), Number(2.5)]) is no source text: a mixed
+            //array is written entry by entry, a decimal entry keeps its fractional part so that
+            //it is not read back as an integer
+            IterableKind::Anys(v) => format!(
+                "[{}]",
+                v.iter()
+                    .map(|p| match p {
+                        Primitive::Number(n) if n.is_finite() && n.fract() == 0.0 => format!("{}.0", n),
+                        other => other.to_string(),
+                    })
+                    .collect::<Vec<_>>()
+                    .join(", ")
+            ),
             IterableKind::PositiveIntegers(v) => format!("{:?}", v),
             IterableKind::Strings(v) => format!("{:?}", v),
             IterableKind::Edges(v) => format!("{:?}", v),
